@@ -540,6 +540,41 @@ func main() {
 			addMix(base, &Plan{Here: []Ins{{Pos: r.Intn(2), E: e}}}, "dimension-raising", mq, overl, cloneNode(mp))
 		}
 	}
+	// the same INSIDE a nested collection: the nested child holds all the content of the highest non-empty
+	// dimension, and the empty member of strictly higher dimension is inserted into that child (so the
+	// child's own Dimension() is raised while the flattened dimension of the whole tree is not); and empty
+	// areal members in front of / between non-empty areal members of a collection (per-member bookkeeping
+	// such as saved areas or member indices must skip them consistently)
+	for i := 0; i < reps; i++ {
+		r := root.Fork()
+		x, y, dx, dy := r.Range(1, 5), r.Range(1, 5), r.Range(1, 3), r.Range(0, 3)
+		ct := geom.DimXY
+		coll := func(kids ...*lib.Node) *lib.Node { return &lib.Node{Kind: lib.KColl, CT: ct, Kids: kids} }
+		nested := func(e Emp, pos int) *Plan { return &Plan{Kids: []*Plan{{Here: []Ins{{Pos: pos, E: e}}}}} }
+		mp := &lib.Node{Kind: lib.KMPoint, CT: ct, Kids: []*lib.Node{ptN(ct, x, y), ptN(ct, x+dx, y+dy)}}
+		for _, e := range []Emp{{K: "Ln"}, {K: "Pg"}, {K: "MLn", N: 1}} {
+			base := coll(coll(ptN(ct, x, y)))
+			if r.Bool() {
+				base = coll(coll(cloneNode(mp)))
+			}
+			addMix(base, nested(e, r.Intn(2)), "nested-dimension-raising", cloneNode(mp))
+		}
+		ln := lineN(ct, x, y, x+2*dx, y+2*dy)
+		for _, e := range []Emp{{K: "Pg"}, {K: "MPg", N: 1}, {K: "GC", Ms: []Emp{{K: "Pg"}}}} {
+			base := coll(coll(cloneNode(ln)), ptN(ct, x+9, y+1))
+			if r.Bool() {
+				base = coll(coll(ptN(ct, x+9, y), cloneNode(ln)), ptN(ct, x+9, y+1))
+			}
+			addMix(base, nested(e, r.Intn(2)), "nested-dimension-raising", cloneNode(ln))
+		}
+		sq := func(ox, w int) *lib.Node {
+			return &lib.Node{Kind: lib.KPoly, CT: ct, Kids: []*lib.Node{ring(r, ct, [][2]int{{ox, y}, {ox + w, y}, {ox + w, y + w}, {ox, y + w}})}}
+		}
+		for _, e := range []Emp{{K: "Pg"}, {K: "MPg"}, {K: "MPg", N: 1}, {K: "GC", Ms: []Emp{{K: "Pg"}}}} {
+			base := coll(sq(10+x, 4), sq(20+x, 2+dx))
+			addMix(base, &Plan{Here: []Ins{{Pos: r.Intn(2), E: e}}}, "empty-areal-before-areal")
+		}
+	}
 	// every position x every shape on a few small bases of each container kind
 	for _, k := range []lib.Kind{lib.KMPoint, lib.KMLine, lib.KMPoly, lib.KColl} {
 		reps := 1
